@@ -465,7 +465,7 @@ func c07Run(rt *rapid.T, p c07Plan, seed string) (*lm, []string, error) {
 		for k := 0; k < 2; k++ {
 			for i := range m.w.Nodes {
 				m.w.Apply(sim.Op{K: "deliverAll", N: i})
-				for j := 0; j < 60 && len(m.w.Nodes[i].Book.VerifParkedList()) > 0; j++ {
+				for j := 0; j < 60 && len(sim.ParkedList(m.w.Nodes[i].Book)) > 0; j++ {
 					m.w.Apply(sim.Op{K: "retry", N: i})
 				}
 			}
